@@ -134,5 +134,5 @@ def same_value(call, got, exp):
     got = np.asarray(got); exp = np.asarray(exp)
     if got.shape != exp.shape: return False
     if call.op in FLOAT_OPS or got.dtype.kind == "f" or exp.dtype.kind == "f":
-        return bool(np.allclose(got.astype("float64"), exp.astype("float64"), rtol=1e-7, atol=1e-9))
+        return bool(np.allclose(got.astype("float64"), exp.astype("float64"), rtol=1e-7, atol=1e-9, equal_nan=True))
     return bool(np.array_equal(got, exp))
